@@ -74,6 +74,11 @@ impl<R: Read + Seek> ReadBox<&mut R> for TrakBox {
                 ));
             }
 
+            // Break if size zero BoxHeader, which can result in dead-loop.
+            if s == 0 {
+                break;
+            }
+
             match name {
                 BoxType::TkhdBox => {
                     tkhd = Some(TkhdBox::read_box(reader, s)?);
